@@ -41,16 +41,27 @@ type sinkEvent struct {
 }
 
 const c11Source = `
+total := 0
 func helper(x) {
     let y := x * 2
     return y / 2
+}
+func bump(x) {
+    mutex totalmutex {
+        total := total + x
+    }
+    return x
 }
 sink s1
     kindmatch ["t.a"],
     priority 0
     {
         let id := event.state.id
-        verif.echo(event.state.id, helper(id))
+        for i in range(1, 4) {
+            bump(i)
+            helper(i)
+        }
+        verif.echo(event.state.id, helper(bump(id)))
         if event.state.fail {
             raise(event.state.type, event.state.detail, event.state.data)
         }
@@ -113,7 +124,9 @@ func newC11Run(evs []*sinkEvent, workers int, controlled bool) (*c11Run, error) 
 	if _, err := cr.env.run(c11Source); err != nil {
 		return nil, err
 	}
-	verifhook.Set(cr.s.Handle)
+	if controlled {
+		verifhook.Set(cr.s.Handle)
+	} // free runs: no recording at the observation points (the recorder's lock would serialise the workers)
 	cr.env.erp.Processor.Start()
 	proc := cr.env.erp.Processor
 	for k, e := range evs {
@@ -162,7 +175,7 @@ func (cr *c11Run) finish() {
 	}
 	cr.s.WaitDone(names, 5*time.Second)
 	done := make(chan struct{})
-	go func() { cr.env.erp.Processor.ThreadPool().SetWorkerCount(0, true); close(done) }()
+	go func() { cr.env.erp.Processor.ThreadPool().SetWorkerCount(0, false); close(done) }()
 	select {
 	case <-done:
 	case <-time.After(2 * time.Second):
@@ -336,7 +349,7 @@ func C11(r *ev.Run) {
 	nFree := pick(tier, 60, 400)
 	for k := 0; k < nFree; k++ {
 		w := 2 + rng.Intn(15)
-		evs := randomSinkEvents(rng, 20+rng.Intn(60), true)
+		evs := randomSinkEvents(rng, 100+rng.Intn(300), true)
 		cr, err := newC11Run(evs, w, false)
 		if err != nil {
 			r.Inconclusive("cannot set up sinks: " + err.Error())
